@@ -182,6 +182,7 @@ def layout_plan(rng, count, max_files):
         out.append(dict(base, pad=pd))
     out.append(dict(base, sparse=True, assign="reversed"))
     out.append(dict(base, extras=True))
+    out.append(dict(base, symlinks=True, assign="round_robin"))
     for st in INDEX_STYLES:
         out.append(dict(base, index_style=st, assign="random", nfiles=5))
     out.append(dict(base, assign="one_per_file", nfiles=max_files, numbering="huge", pad=0, extras=True))
@@ -189,7 +190,7 @@ def layout_plan(rng, count, max_files):
     while len(out) < count:
         out.append(dict(assign=rng.choice(layouts.ASSIGN), nfiles=rng.choice([1, 2, 3, 5, 8, 13, max_files]), gaps=rng.choice(layouts.GAPS),
                         numbering=rng.choice(layouts.NUMBERING), pad=rng.choice(layouts.PADS), sparse=rng.random() < 0.15, extras=rng.random() < 0.4,
-                        index_style=rng.choice(INDEX_STYLES), file_order=rng.choice(["asc", "desc", "shuffled"])))
+                        index_style=rng.choice(INDEX_STYLES), file_order=rng.choice(["asc", "desc", "shuffled"]), symlinks=rng.random() < 0.2))
     return out[:count] if count >= 27 else out
 
 
